@@ -50,6 +50,20 @@ def run(tier):
         rep.part('larger fields (%d athletes, %d regular heights + a closing one, %s reduced cards, %d per signature)' % (n, R, tot['reduced_cards'], per), wall_s=round(time.time() - t0, 1), **tot)
         for sig, hist, msg in viol:
             rep.add_violation(Violation(sig, dict(bounds=[n, R + 1, 1], history=hjmc.fmt_hist(hist)), msg))
+    # larger fields once more with the bars passed as binary floats less than a centimetre apart (three heights and the closing one: two different bests 5 mm apart)
+    for (n, R, nc, per), codec in ([((2, 3, None, 1), 'float-mm'), ((3, 2, None, 1), 'float-mm')] if tier == 'quick' else
+                                   [((2, 3, None, 2), 'float-mm'), ((3, 3, None, 1), 'float-mm'), ((4, 2, None, 1), 'float-mm'), ((2, 3, None, 1), 'float-cm')]):
+        t0 = time.time()
+        hjmc.set_codec(codec)
+        try:
+            tot, viol = hjmc.placing_enumerate(n, R, nc, per)
+        finally:
+            hjmc.set_codec(None)
+        for k in dt:
+            dt[k] += tot[k]
+        rep.part('larger fields (%d athletes, %d regular heights + a closing one, %s reduced cards), heights passed as %s' % (n, R, tot['reduced_cards'], codec), wall_s=round(time.time() - t0, 1), **tot)
+        for sig, hist, msg in viol:
+            rep.add_violation(Violation(sig + ':heights-as-%s' % codec, dict(bounds=[n, R + 1, 1], history=hjmc.fmt_hist(hist), codec=codec), msg))
     # many heights: pairs of long cards (up to 14 failures before the best height) plus an also-ran
     t0 = time.time()
     R9 = 9 if tier == 'quick' else 11
@@ -62,7 +76,7 @@ def run(tier):
     for sig, hist, msg in viol:
         rep.add_violation(Violation(sig, dict(bounds=[3, R9 + 1, 1], history=hjmc.fmt_hist(hist)), msg))
     # the tie-focused enumeration once more with the heights passed as binary floats / two-place Decimals at 1 cm steps
-    for (n, R, J), codec in ([((3, 2, 2), 'float-cm')] if tier == 'quick' else [((3, 2, 2), 'float-cm'), ((3, 2, 2), 'decimal-cm'), ((2, 3, 2), 'float-cm')]):
+    for (n, R, J), codec in ([((3, 2, 2), 'float-cm'), ((2, 2, 1), 'float-mm')] if tier == 'quick' else [((3, 2, 2), 'float-cm'), ((3, 2, 2), 'decimal-cm'), ((2, 3, 2), 'float-cm'), ((3, 2, 2), 'float-mm')]):
         t0 = time.time()
         hjmc.set_codec(codec)
         try:
